@@ -260,3 +260,35 @@ def run(spec, res):
             res.viol('writer-differs:%s' % fmt, '%s: %s' % (
                 fmt, '; '.join(pa[:4])), fmt=fmt, problems=pa[:8],
                 sdate=spec['sdate'], shour=spec['shour'], nt=spec['nt'])
+            return
+        # direction A again, from a file built with the public API (variables
+        # created in a shuffled order, no reader-provided extras); the
+        # hourly-step fallbacks of the uamiv/boundary writers are C08's
+        if spec.get('dhour', 1) != 1 and fmt in ('uamiv',
+                                                  'lateral_boundary'):
+            return
+        from .c08 import build_direct
+        out2 = os.path.join(d, 'out2.' + fmt)
+        try:
+            fd, c2 = build_direct(spec)
+            o = pncgen(fd, out2, format=fmt, verbose=0)
+            try:
+                o.close()
+            except Exception:
+                pass
+            res.hook('writer.return')
+            wrote = open(out2, 'rb').read()
+            refcamx.walk(wrote)
+            res.hook('decoder.walk')
+            dec = refcamx.decode(fmt, wrote, spec['ny'], spec['nx'],
+                                 nvars=spec.get('nvars'),
+                                 newstyle=spec.get('newstyle'))
+            pa = compare_decoded(dec, c2, spec, 'writer(direct)')
+        except Exception as e:
+            pa = ['writing a hand-built %s file / decoding it failed: %r'
+                  % (fmt, e)]
+        res.ev(digest([spec, 'A2']), ncell >= 2, ['dirA:direct'])
+        if pa:
+            res.viol('writer-differs:%s:direct' % fmt, '%s: %s' % (
+                fmt, '; '.join(pa[:4])), fmt=fmt, problems=pa[:8],
+                sdate=spec['sdate'], shour=spec['shour'], nt=spec['nt'])
